@@ -947,7 +947,10 @@ MANIFEST = dict(
     'principles numerator (polynomial identity decided by normal form / '
     'linearised z3 QF_LRA prover); Q is Hermitian, equals the sum of link '
     'covariances and x^H Q x is an explicit sum of squares; sum capacity is '
-    'sum log2(1+SINR).',
+    'sum log2(1+SINR).  Joint-processing variants (calc_JP_SINR / calc_JP_Q '
+    'of both channel classes) and objects that were re-configured (new '
+    'precoders on one solver, re-initialised channel with another antenna '
+    'split) are included.',
     note='floats as exact reals; |x| as a defined atom; denominators assumed '
     'non-zero; sizes bounded (K<=3, antennas<=2, streams<=2)',
     technique='symbolic execution on object arrays + polynomial normal form '
